@@ -50,6 +50,7 @@ func receiveLemmaN(p string, eventsMayFail bool, sigs int, before int) {
 	h.assumeThresholdInvariant()
 	verifrt.Assume(asciiStr(h.PairLocal))
 	h.Env.EventsMayFail(eventsMayFail)
+	h.Env.FTF.MayPanic = p == "C14" // a failing mint may return an error or panic
 	h.Env.BeginTx()
 	ok, panicked, m := h.callUser(hReceiveMessage, c)
 	verifrt.ProbeAttestation("m_message", "m_attestation", "att", m.Message, m.Attestation, h.Att, sigs)
